@@ -3,6 +3,9 @@ package props
 import (
 	"fmt"
 	"go/ast"
+	"go/constant"
+	"go/token"
+	"go/types"
 	"strings"
 
 	"octoverif/core"
@@ -11,8 +14,8 @@ import (
 
 func init() {
 	register(&Check{ID: "C20", Run: runC20,
-		Explanation: "The per-record callback of max_diff_watermark is interpreted for record time {<,=,>} current watermark × rounded time {>,≤} largest rounded time seen: a record passes iff its time is strictly above the current watermark, unchanged except that its event time is set to the time field before it is produced; the candidate is the time rounded down to the resolution (UnixNano / resolution * resolution, same resolution twice); a watermark is emitted only when the rounded time strictly exceeds the largest seen, which is updated in the same step, and its value is that rounded time minus max_diff — hence strictly increasing; watermarks of the source are not forwarded. PAN1: the resolution cannot be zero when the division runs.",
-		NotDecided:  []string{"the arithmetic of rounding for times before 1970 or beyond the int64 nanosecond range"},
+		Explanation: "The per-record callback of max_diff_watermark is interpreted for record time {<,=,>} current watermark × rounded time {>,≤} largest rounded time seen: a record passes iff its time is strictly above the current watermark, unchanged except that its event time is set to the time field before it is produced; the candidate is the time rounded down to the resolution — the nanosecond expression is folded for every residue and sign of the time (ROUND), so truncating division, which rounds pre-1970 times up, is rejected; a watermark is emitted only when the rounded time strictly exceeds the largest seen, which is updated in the same step, and its value is that rounded time minus max_diff — hence strictly increasing; watermarks of the source are not forwarded. PAN1: the resolution cannot be zero when the division runs.",
+		NotDecided:  []string{"times beyond the int64 nanosecond range (years before 1678 or after 2262)"},
 	})
 }
 
@@ -44,7 +47,10 @@ func checkMaxDiffWatermark(c *core.Ctx, rule string) {
 		return
 	}
 	T := "record.Values[m.timeFieldIndex].Time"
-	R := "time.Unix(0,((time.Time.UnixNano(" + T + ") / resolution.Duration) * resolution.Duration))"
+	// the rounded candidate: whatever expression builds it from the record's time and the resolution is named ROUNDED
+	// here and judged separately (ROUND below): time.Unix(0, f(UnixNano(T), resolution)) or T.Truncate(resolution)
+	R := "ROUNDED"
+	roundExprs := map[string]token.Pos{}
 	for _, rel := range []absint.Rel{absint.LT, absint.EQ, absint.GT} {
 		for _, adv := range []bool{true, false} {
 			rel, adv := rel, adv
@@ -65,7 +71,16 @@ func checkMaxDiffWatermark(c *core.Ctx, rule string) {
 					st.Emit("METASEND", call.Pos(), args...)
 					return absint.Nil{}, true
 				case "time.Unix":
+					if len(args) == 2 && args[0].Canon() == "0" && strings.Contains(args[1].Canon(), "time.Time.UnixNano("+T+")") {
+						roundExprs[args[1].Canon()] = call.Pos()
+						return absint.S(R), true
+					}
 					return absint.S("time.Unix(" + args[0].Canon() + "," + args[1].Canon() + ")"), true
+				case "time.Time.Truncate":
+					if recv.Canon() == T && len(args) == 1 {
+						roundExprs["TRUNCATE("+args[0].Canon()+")"] = call.Pos()
+						return absint.S(R), true
+					}
 				case "time.Time.Add":
 					return absint.S("time.Time.Add(" + recv.Canon() + "," + args[0].Canon() + ")"), true
 				case "time.Time.UnixNano":
@@ -125,6 +140,19 @@ func checkMaxDiffWatermark(c *core.Ctx, rule string) {
 			c.Decide(bad == "" && len(outs) > 0, rule, ckey, rcs[0].Produce.Pos(), len(outs), "", bad)
 		}
 	}
+	// ROUND: the candidate is the record's time rounded *down* to a multiple of the resolution, for every sign
+	if len(roundExprs) == 0 {
+		c.Unknown(rule, key+"/rounding", rcs[0].Produce.Pos(), "the rounded candidate is not built by time.Unix(0, f(time.UnixNano(), resolution)) or time.Truncate(resolution)")
+	}
+	for expr, pos := range roundExprs {
+		rkey := key + "/rounding"
+		if strings.HasPrefix(expr, "TRUNCATE(") {
+			c.Decide(expr == "TRUNCATE(resolution.Duration)", rule, rkey, pos, 1, "time.Truncate rounds down for every time", "the time must be truncated to the resolution; it is truncated to "+expr)
+			continue
+		}
+		ok, cases, why := isFloorToMultiple(expr, "time.Time.UnixNano("+T+")", "resolution.Duration")
+		c.Decide(ok, rule, rkey, pos, cases, "the nanosecond arithmetic yields the largest multiple of the resolution not above the time, for negative (pre-1970) and positive times", why)
+	}
 	// the source's own watermarks are swallowed, other metadata passes
 	wm := lookupConst(p, "execution", "MetadataMessageTypeWatermark")
 	for _, isWM := range []bool{true, false} {
@@ -153,4 +181,29 @@ func checkMaxDiffWatermark(c *core.Ctx, rule string) {
 		c.Decide(ok, rule, ckey, rcs[0].MetaSend.Pos(), len(outs), "", "watermarks of the source must not be forwarded (this node generates the stream's watermarks); other metadata must be")
 	}
 	_ = strings.TrimSpace
+}
+
+// isFloorToMultiple decides whether the integer expression expr over n (nName) and r (rName), given in Go syntax,
+// equals floor(n / r) * r under Go's integer semantics (division truncates toward zero, % takes the dividend's sign).
+// Such an expression is a composition of +, -, *, / and % of n and r: for a fixed r its deviation from n is periodic in
+// n with period r on each side of zero, so the constant folder's verdict on every n in [-3r, 3r] for r in 1..7 is a
+// complete case analysis of the residues and signs, not a sample. Nothing of octosql runs: go/types folds constants.
+func isFloorToMultiple(expr, nName, rName string) (bool, int, string) {
+	cases := 0
+	for r := int64(1); r <= 7; r++ {
+		for n := -3 * r; n <= 3*r; n++ {
+			src := strings.ReplaceAll(strings.ReplaceAll(expr, nName, fmt.Sprintf("int64(%d)", n)), rName, fmt.Sprintf("int64(%d)", r))
+			tv, err := types.Eval(token.NewFileSet(), nil, token.NoPos, src)
+			if err != nil || tv.Value == nil {
+				return false, cases, fmt.Sprintf("the rounding expression %s is not integer arithmetic over the time's nanoseconds and the resolution (%v)", expr, err)
+			}
+			got, exact := constant.Int64Val(tv.Value)
+			want := n - ((n%r)+r)%r
+			cases++
+			if !exact || got != want {
+				return false, cases, fmt.Sprintf("the candidate must be the time rounded down to the resolution; %s gives %d for nanoseconds=%d, resolution=%d (rounded down: %d) — Go's integer division rounds toward zero, i.e. up for times before 1970: the watermark runs ahead of the data and in-order records are dropped as late", expr, got, n, r, want)
+			}
+		}
+	}
+	return true, cases, ""
 }
